@@ -5,7 +5,8 @@ From RV Require Import Base.
 From RV.Gen Require Import FoldTables.
 From RV.Model Require Import Fold Optimizer Unfold.
 From RV.Ref Require Import RefFold RefCanon.
-From RV.Proofs Require Import FoldRefProofs.
+From RV.Model Require Import CodePointSet.
+From RV.Proofs Require Import FoldRefProofs Closure.
 
 (* the tables are sorted and disjoint, so the binary search finds the unique containing range *)
 Theorem c10_tables_sorted : ranges_sorted 0 FOLDS = true /\ ranges_sorted 0 TO_UPPERCASE = true.
@@ -41,3 +42,21 @@ Proof. reflexivity. Qed.
 
 Example c10_example : fold 8490 = 107 /\ fold 75 = 107 /\ uppercase 107 = 75 /\ uppercase 8490 = 8490.
 Proof. vm_compute. repeat split. Qed.
+
+(* ---- for every code point and every class, not only on the supports ---- *)
+(* the canonical form of a canonical form is itself, in both modes *)
+Theorem c10_canonicalize_idempotent : forall unicode c,
+  fold_code_point (fold_code_point c unicode) unicode = fold_code_point c unicode.
+Proof. intros [|] c; unfold fold_code_point; [apply fold_idempotent|apply uppercase_idempotent]. Qed.
+
+(* the compile-time side: the case closure of a class (add_icase_code_points_for: fold_interval_in, then
+   unfold_interval_in, both walking the FoldRange table interval by interval with strides 1, 2 or 4) contains
+   exactly the code points whose canonical form is that of a member - for every interval set whatsoever *)
+Theorem c10_class_closure_is_canonical_equivalence : forall (unicode : bool) (s : cps) (c : N),
+  cps_contains (add_icase_code_points_for s unicode) c = true <->
+  exists a, cps_contains s a = true /\ fold_code_point a unicode = fold_code_point c unicode.
+Proof. exact class_closure_is_canonical_equivalence. Qed.
+
+(* Non-vacuity: the class [\u01B9-\u01BC] under iu (an interval that starts inside a stride-2 range of FOLDS) *)
+Example c10_closure_example : add_icase_code_points_for [(441, 444)] true = [(440, 445)].
+Proof. vm_compute. reflexivity. Qed.
